@@ -58,7 +58,7 @@ func TestC08Sequential(t *testing.T) {
 		}
 		s := r.Sum
 		var cl []string
-		for name, n := range map[string]int{"rotation": s.Rotations, "reopen": s.Reopens, "external_rename": s.Renames, "pruned": s.Pruned, "write_error": s.WriteErrors} {
+		for name, n := range map[string]int{"rotation": s.Rotations, "reopen": s.Reopens, "external_rename": s.Renames, "pruned": s.Pruned, "write_error": s.WriteErrors, "restart_new_sink_value": s.Restarts, "idle_after_reopen": s.IdleAfterReopen} {
 			if n > 0 {
 				cl = append(cl, name)
 			}
